@@ -343,6 +343,10 @@ func GenCase(tape *sim.Tape, crashBias bool) *Case {
 			iv.Inputs = append(iv.Inputs, one("", []string{e}, true))
 		}
 		iv.Bundle = true
+		if tape.Draw(4) == 0 {
+			// the same file named twice: a bundle is the concatenation of the inputs as given
+			iv.Inputs = append(iv.Inputs, iv.Inputs[tape.Draw(len(iv.Inputs))])
+		}
 		if shape == "bundle-file" {
 			iv.Output = "bundle." + ext
 		}
@@ -368,6 +372,23 @@ func GenCase(tape *sim.Tape, crashBias bool) *Case {
 		iv.Recursive = true
 		iv.All = tape.Draw(3) == 0
 		iv.Inputs, iv.Output = []string{"src"}, []string{"out/", "out", "deep/er/out/"}[tape.Draw(3)]
+		if tape.Draw(3) == 0 {
+			// overlapping inputs: a directory and, again, something inside it (another root,
+			// so another place in the mirror)
+			var inner []string
+			for _, e := range t.Entries {
+				if strings.HasPrefix(e.Path, "src/") && (e.Kind == KDir || e.Kind == KFile) && !strings.Contains(e.Path[4:], "/.") && !strings.HasPrefix(e.Path[4:], ".") {
+					p := e.Path
+					if e.Kind == KDir {
+						p += []string{"", "/"}[tape.Draw(2)]
+					}
+					inner = append(inner, p)
+				}
+			}
+			if len(inner) > 0 {
+				iv.Inputs = append(iv.Inputs, inner[tape.Draw(len(inner))])
+			}
+		}
 	case "filters":
 		genDir(tape, t, "src", 2, true, &counter)
 		iv.Recursive = true
